@@ -121,7 +121,7 @@ def _inlined(cn, stmt, events_of, unroll, drop, known, depth):
         if g is None or g.body is None or g is cn.fn:
             continue
         args = [cn.c(a) for a in A.call_args(n)]
-        sub, _ = event_conditions(Canon(g), g.body, events_of=events_of, unroll=unroll, drop=drop, known=known,
+        sub, _ = event_conditions(Canon(g, uniform=cn.uniform), g.body, events_of=events_of, unroll=unroll, drop=drop, known=known,
                                   _depth=depth + 1)
         for (k, t), d in sub.items():
             if k in ("return", "break", "continue"):
@@ -130,17 +130,51 @@ def _inlined(cn, stmt, events_of, unroll, drop, known, depth):
     return out
 
 
+def _versioner(cn):
+    """Per-path SSA-like numbering of locals that are assigned more than once: `?c` becomes `?c#k` where k counts the
+    assignments to c seen so far on the path, so that tests of different values of one variable are different atoms."""
+    import re as _re
+    names = set()
+    for n in walk(cn.fn.body):
+        if n.get("k") == "Var" and n["id"] in cn.multi:
+            names.add(cn.lname(n["id"], n["n"]))
+    for p in cn.fn.o["params"]:
+        if p["id"] in cn.multi:
+            names.add("$%d" % cn.params[p["id"]])
+    rx = _re.compile(r"(\?\w+|\$\d+)(?![\w#])")
+
+    def vtext(text, ver):
+        if not ver:
+            return text
+        return rx.sub(lambda m: m.group(1) + "#%d" % ver[m.group(1)] if m.group(1) in ver else m.group(1), text)
+    return names, vtext
+
+
 def event_conditions(cn, region, events_of=default_events, unroll=0, drop=lambda atom: False, pre=None, known=None,
-                     _depth=0):
+                     _depth=0, versioned=False, cond_events=False):
     """{(kind, text): DNF} for the events reached on the structured paths through `region`.
     DNF = set of frozensets of (atom, polarity). `drop(atom_text)` removes irrelevant atoms (e.g. verbose tests)."""
     table = {}
     nodes = {}
+    vnames, vtext = _versioner(cn) if versioned else (set(), None)
     for ev, term_ in flow.paths(region, unroll=unroll):
         alts = [[]] if pre is None else [list(p) for p in pre]
+        ver = {}
         for e in ev:
             if e[0] == "cond":
+                if cond_events:
+                    # events inside a tested expression (a call with effects used directly as a condition) happen
+                    # under the conditions collected so far
+                    for x in events_of(cn, e[1]):
+                        key = (x.kind, vtext(x.text, ver) if (versioned and ver) else x.text)
+                        nodes.setdefault(key, x.node)
+                        for a in alts:
+                            conj = frozenset((t, p) for t, p in a if not drop(t))
+                            if _consistent(conj):
+                                table.setdefault(key, set()).add(conj)
                 subs = _expand(cn, e[1], e[2], 0)
+                if versioned and ver:
+                    subs = [[(vtext(t, ver), p) for t, p in s_] for s_ in subs]
                 alts = [a + s for a in alts for s in subs]
                 if len(alts) > 256:
                     raise AnalysisIncomplete("condition explosion in %s" % cn.fn.o["q"])
@@ -156,6 +190,25 @@ def event_conditions(cn, region, events_of=default_events, unroll=0, drop=lambda
                 evs = [Event("throw", "", e[1])]
             else:
                 evs = []
+            if versioned:
+                # events are printed with the versions before the statement's own assignments take effect on the
+                # right-hand sides; assigned names are bumped afterwards
+                evs = [Event(x.kind, vtext(x.text, ver) if ver else x.text, x.node) for x in evs]
+                if e[0] == "stmt":
+                    for eff in AI.effects(e[1]):
+                        if eff[0] in ("assign", "set", "inc", "op", "decl"):
+                            if eff[0] == "decl":
+                                nm = cn.lname(eff[1]["id"], eff[1]["n"]) if eff[1]["id"] in cn.multi else None
+                            else:
+                                pth = eff[-1]
+                                nm = None
+                                if len(pth) == 1 and pth[0][0] == "var":
+                                    if pth[0][1] in cn.params and pth[0][1] in cn.multi:
+                                        nm = "$%d" % cn.params[pth[0][1]]
+                                    elif pth[0][1] in cn.multi:
+                                        nm = cn.lname(pth[0][1], pth[0][2])
+                            if nm and nm in vnames:
+                                ver[nm] = ver.get(nm, 0) + 1
             for x in evs:
                 key = (x.kind, x.text)
                 nodes.setdefault(key, x.node)
